@@ -59,6 +59,7 @@ type nwRun struct {
 	fwq      []*fwEntry
 	fwSent   int64 // destructor calls that queued a list
 	fwParked int64
+	fwDone   int64
 	fwOrder  []unsafe.Pointer // lists in the order the destructor queued them
 	abort    bool             // a fact that decides the verdict was observed: stop before the code runs into it
 }
@@ -225,16 +226,24 @@ func nwInstall() {
 	}
 }
 
-// settle waits until every list queued by a destructor is parked at the free worker's hook.
+// settle waits until the lists queued by destructors are parked at the free workers' hook -- as many of them as
+// there are free workers (nitro runs one per writer): further lists wait in the channel until a worker is released.
 func (r *nwRun) settle() error {
 	deadline := time.Now().Add(20 * time.Second)
-	for atomic.LoadInt64(&r.fwParked) < atomic.LoadInt64(&r.fwSent) {
+	for {
+		sent, parked, done := atomic.LoadInt64(&r.fwSent), atomic.LoadInt64(&r.fwParked), atomic.LoadInt64(&r.fwDone)
+		want := sent - done
+		if nw := int64(len(r.d.W)); want > nw {
+			want = nw
+		}
+		if parked-done >= want {
+			return nil
+		}
 		if time.Now().After(deadline) {
-			return fmt.Errorf("nw: free worker did not pick up a queued list")
+			return fmt.Errorf("nw: free worker did not pick up a queued list (sent %d parked %d done %d)", sent, parked, done)
 		}
 		time.Sleep(20 * time.Microsecond)
 	}
-	return nil
 }
 
 func (r *nwRun) flushPending() {
@@ -286,10 +295,11 @@ func (r *nwRun) freeOne() error {
 	close(e.release)
 	select {
 	case <-e.done:
+		atomic.AddInt64(&r.fwDone, 1)
 	case <-time.After(20 * time.Second):
 		return fmt.Errorf("nw: free worker did not finish a list")
 	}
-	return nil
+	return r.settle() // the worker (or an idle one) now parks with the next queued list, if any
 }
 
 func (r *nwRun) fwPending() int {
